@@ -110,7 +110,7 @@ def _get_sampler(check: Check, ci):
   ids_name = None
   if len(choice) == 1:
     c = choice[0]
-    recv_ok = isinstance(c.func.value, ast.Name) and any(d.value is prs_calls[0] for d in ff.defs_for(c.func.value)) if prs_calls else False
+    recv_ok = any(v is prs_calls[0] for v in ff.expand(c.func.value)) if prs_calls else False
     kw = {k.arg: k.value for k in c.keywords}
     pop = c.args[0] if c.args else kw.get('a')
     pop_ok = isinstance(pop, ast.Call) and ff.ext(pop.func) == 'numpy.array' and pop.args and txt(pop.args[0]) == 'self._client_ids' and any(
@@ -228,10 +228,9 @@ def _prs(check: Check):
   uses_round = False
   for _, rv in ff.returns():
     if isinstance(rv, ast.Call) and ff.ext(rv.func) == 'numpy.random.RandomState' and rv.args:
-      start_vars = {d.name for ds in ff.rd.defs_at.values() for d in ds if d.value is not None and any(
-          isinstance(c, ast.Call) and ff.ext(c.func) == 'numpy.random.RandomState' and c.args and ff.param_of(c.args[0]) == p_seed for c in ast.walk(d.value))}
-      uses_round = any(isinstance(x, ast.Name) and x.id == p_round for x in ast.walk(rv.args[0])) and any(
-          isinstance(x, ast.Name) and x.id in start_vars for x in ast.walk(rv.args[0]))
+      prov = list(ff.deep_walk(rv.args[0]))
+      uses_round = any(isinstance(x, ast.Name) and x.id == p_round and isinstance(x.ctx, ast.Load) for x in prov) and any(
+          isinstance(c, ast.Call) and ff.ext(c.func) == 'numpy.random.RandomState' and c.args and ff.param_of(c.args[0]) == p_seed for c in prov)
   check.ob('R-SEED', fi, 'RandomState(f(seed, round))', only_rs and seeded and uses_round and not free,
            f'closed function of its two arguments: only explicitly seeded RandomState instances (ok={only_rs}), the seed seeds the '
            f'start value (ok={seeded}), the returned state depends on both start and round (ok={uses_round}), no free variables '
